@@ -310,9 +310,21 @@ func runC18Program(c *fw.Ctx, rng *rand.Rand, nops int) {
 			for _, b := range bs {
 				var it corestore.Iterator
 				var err error
-				if rev {
+				// the in-memory backend also offers lock-free variants of its iterators (for callers
+				// that hold the lock already); used here from the single program goroutine in every
+				// third iterator step
+				mem, isMem := b.db.(*dbm.MemDB)
+				noMtx := isMem && rng.Intn(3) == 0
+				switch {
+				case noMtx && rev:
+					it, err = mem.ReverseIteratorNoMtx(s, e)
+					c.Obs("memdb_lock_free_iterators", 1)
+				case noMtx:
+					it, err = mem.IteratorNoMtx(s, e)
+					c.Obs("memdb_lock_free_iterators", 1)
+				case rev:
 					it, err = b.db.ReverseIterator(s, e)
-				} else {
+				default:
 					it, err = b.db.Iterator(s, e)
 				}
 				if err != nil {
